@@ -1307,6 +1307,11 @@ def shrink_script(script: list[list], cfg: dict, still_bad: Any) -> tuple[list[l
                 cand[i][1] = 2
                 if still_bad(cand, cfg):
                     cur = cand
+            if ev[0] == 'reestablish':
+                cand = [list(e) for e in cur]
+                cand[i] = ['teardown', 2]
+                if still_bad(cand, cfg):
+                    cur = cand
             if ev[0] == 'holdExpired':
                 cand = [list(e) for e in cur]
                 cand[i] = ['tick']
